@@ -15,6 +15,8 @@ MonInit == [st |-> <<>>,            \* local id -> stream record
             maxdata |-> <<0, 4096>>,
             callno |-> <<>>,        \* thread -> number of API calls started
             api |-> <<>>,           \* thread -> [api, decode] of the call in progress
+            closed |-> FALSE,       \* close() has been called and no connection was made since (C13)
+            mustfail |-> {},        \* threads whose call in progress started while `closed`
             verdict |-> "ok"]
 
 Bad(m, c) == IF m.verdict = "ok" THEN [m EXCEPT !.verdict = c] ELSE m
@@ -80,8 +82,13 @@ MonDv(m, e) ==
   ELSE m
 
 (* ---- API level ------------------------------------------------------------------------------------ *)
+\* C13: from the moment close() is called until a connection is made again, every operation that is started (whoever starts it,
+\* while close() itself may still be waiting for a lock) raises and puts nothing on the wire
 MonCall(m, e) == [m EXCEPT !.callno = Upd(m.callno, e.t, CallNo(m, e.t) + 1),
-                           !.api = Upd(m.api, e.t, [api |-> e.api, decode |-> e.decode])]
+                           !.api = Upd(m.api, e.t, [api |-> e.api, decode |-> e.decode]),
+                           !.closed = IF e.api = "close" THEN TRUE ELSE @,
+                           !.mustfail = IF m.closed /\ e.api \notin {"connect", "close"} THEN @ \cup {e.t} ELSE @ \ {e.t}]
+MonTxAllowed(m, e) == IF e.t \in m.mustfail THEN Bad(m, "C13.NothingSentWhenClosed") ELSE m
 
 Mine(m, t) == {l \in DOMAIN m.st : m.st[l].owner = t /\ m.st[l].call = CallNo(m, t)}
 
@@ -101,7 +108,8 @@ ContentClause(m, e, l) ==
 
 MonRet(m, e) ==
   LET mine == Mine(m, e.t) IN
-  IF e.api \in NoClose THEN m
+  IF e.t \in m.mustfail THEN Bad(m, "C13.RaisesWhenClosed")
+  ELSE IF e.api \in NoClose THEN m
   ELSE IF \E l \in mine : ~m.st[l].hostClosed THEN Bad(m, "C04.MissingClose")
   ELSE IF \E l \in mine : m.st[l].devUn > 0 THEN Bad(m, "C04.MissingOkay")
   ELSE IF e.api \in ShellLike /\ e.api # "root"
@@ -109,8 +117,10 @@ MonRet(m, e) ==
             ELSE LET c == ContentClause(m, e, CHOOSE l \in mine : TRUE) IN IF c = "ok" THEN m ELSE Bad(m, c)
   ELSE m
 
-\* a new connection is made: every stream of the previous one is gone (nothing may be sent on them any more); their ids stay used
-MonConn(m) == [m EXCEPT !.st = [l \in DOMAIN m.st |-> [m.st[l] EXCEPT !.hostClosed = TRUE, !.devClosed = TRUE, !.devUn = 0, !.hostUn = FALSE]]]
+\* a new connection is made: every stream of the previous one is gone, on both sides - stream ids are scoped to a connection (adbd
+\* forgets them as well), so an id counts as fresh again; a packet the host still sends for a stream of the old connection is
+\* reported as C04.UnknownStream
+MonConn(m) == [m EXCEPT !.st = <<>>, !.closed = FALSE]
 
 \* the caller closes a streaming generator before the device closed the stream: whatever was delivered to the caller has been acknowledged
 \* (the stream itself is left as it is: the library sends nothing when a generator is closed)
@@ -123,5 +133,7 @@ MonStuck(m, e) == IF \E l \in Mine(m, e.t) : m.st[l].k1 THEN Bad(m, "C06.Stuck.K
 \* device an OKAY for a WRITE it consumed, the device is waiting for that OKAY (stop-and-wait) - the host forgot to acknowledge
 MonStall(m, e) == IF \E l \in Mine(m, e.t) : m.st[l].devUn > 0 /\ ~m.st[l].hostClosed THEN Bad(m, "C04.MissingOkay") ELSE m
 
-MonExc(m, e) == IF e.cls = "UnicodeDecodeError" THEN Bad(m, "C01.NoDecodeError") ELSE m
+MonExc(m, e) == IF e.cls = "UnicodeDecodeError" THEN Bad(m, "C01.NoDecodeError")
+                ELSE IF e.t \in m.mustfail /\ e.cls \notin {"AdbConnectionError", "DevicePathInvalidError"} THEN Bad(m, "C13.RaisesWhenClosed")
+                ELSE [m EXCEPT !.mustfail = @ \ {e.t}]
 =============================================================================
